@@ -14,6 +14,12 @@ def base(v):
     return v
 
 
+def content(v):
+    """The AnsiString behind a value through the public API only: an AnsiString is returned as is, an AnsiStr is
+    converted with the documented constructor AnsiString(<AnsiStr>) (C13/C08 check that conversion)."""
+    return v if isinstance(v, AnsiString) else AnsiString(v)
+
+
 def alpha(v):
     """(text, cells) with cells[i] = tuple of (uid, code) bottom-to-top, through the public API."""
     text = v.base_str
@@ -168,6 +174,14 @@ def canon_generic(v):
         if isinstance(o, dict):
             return ('D',) + tuple((k, ser(o[k], depth + 1)) for k in sorted(o))
         d = getattr(o, '__dict__', None)
+        if d is None:
+            # __slots__ classes: collect the slots of the whole MRO
+            names = []
+            for klass in type(o).__mro__:
+                sl = getattr(klass, '__slots__', ())
+                names.extend([sl] if isinstance(sl, str) else list(sl))
+            if names:
+                d = {k: getattr(o, k) for k in names if hasattr(o, k)}
         if d is not None:
             return (type(o).__name__,) + tuple((k, ser(d[k], depth + 1)) for k in sorted(d)
                                                 if k not in ('_valid', '_parsable'))
@@ -210,9 +224,8 @@ def observe(v):
     """text, identity-renamed ordered cells, two renderings (optimised / unoptimised with a leading reset) and, for
     an AnsiStr, its str payload.  A value that can no longer be read is an observation of its own."""
     try:
-        s = v._s if isinstance(v, AnsiStr) else v
-        t, cells = alpha(s)
-        out = (type(v).__name__, t, tuple(cells), s.to_str(), s.to_str(optimize=False, reset_start=True, reset_end=False))
+        t, cells = alpha(v)          # AnsiStr offers the same query / rendering methods
+        out = (type(v).__name__, t, tuple(cells), v.to_str(), v.to_str(optimize=False, reset_start=True, reset_end=False))
         if isinstance(v, AnsiStr):
             out += (str.__str__(v),)
         return out
@@ -259,8 +272,15 @@ PROBE_CODE = '95'   # a colour no palette role uses
 def self_check(v, deep=False):
     """Library's own consistency check + every query/rendering must work.  Returns None or text."""
     try:
-        s = v if isinstance(v, AnsiString) else v._s
-        for _ in env.lib_mod._AnsiSettingsIterator(s._fmts):
+        s = v
+        # walk every change point under WITH_ASSERTIONS through the public API (find_settings visits all of them);
+        # the internal iterator is used as well while the representation offers it
+        s.find_settings(AnsiSetting(PROBE_CODE), 0, None)
+        try:
+            it = env.lib_mod._AnsiSettingsIterator(s._fmts)
+        except AttributeError:
+            it = ()
+        for _ in it:
             pass
         n = len(s)
         for i in (range(n) if n <= 64 else list(range(8)) + list(range(n - 8, n))):
